@@ -15,6 +15,10 @@ import sys
 import types
 from fractions import Fraction
 
+import warnings
+
+warnings.simplefilter("ignore")  # SyntaxWarning for '\\d' in generated string literals etc. is not an error
+
 REPO = os.environ.get("VYXAL2_REPO", "/repo")
 if REPO not in sys.path:
     sys.path.insert(0, REPO)
